@@ -179,6 +179,10 @@ var gcOff = false
 func RunOne(p *Prop, seed int64, idx int, tier string, rec map[string][]uint32, tracing, sample bool) (res *Result) {
 	if !gcOff {
 		debug.SetGCPercent(-1)
+		// safety net: automatic collection stays off inside runs (sync.Pool determinism), but a
+		// run that piles up gigabytes of garbage (cut-point enumeration over a case that makes
+		// the reader allocate 16 MiB buffers) must not take the worker down
+		debug.SetMemoryLimit(3 << 30)
 		debug.SetMaxStack(64 << 20)
 		debug.SetPanicOnFault(true)
 		installAllocHooks()
